@@ -7,6 +7,7 @@ package grid
 // answers 404/500, or hides Content-Length.
 
 import (
+	"encoding/binary"
 	"bytes"
 	"context"
 	"fmt"
@@ -42,6 +43,15 @@ type faultLayer struct {
 	noLen   bool
 	active  bool
 	getSeen int
+	sizeFld *int64 // non-nil: overwrite the logical-size field (bytes 8..16) of a cas.v2 object
+	pad     int    // append this many bytes to the body (so that it is much longer than the header)
+}
+
+func (fl *faultLayer) setHeader(size int64, pad int) {
+	fl.mu.Lock()
+	fl.cutAt, fl.status, fl.noLen, fl.active = -1, 0, false, true
+	fl.sizeFld, fl.pad = &size, pad
+	fl.mu.Unlock()
 }
 
 func (fl *faultLayer) set(cut, status int, noLen bool) {
@@ -50,11 +60,16 @@ func (fl *faultLayer) set(cut, status int, noLen bool) {
 	fl.mu.Unlock()
 }
 
-func (fl *faultLayer) clear() { fl.mu.Lock(); fl.active = false; fl.mu.Unlock() }
+func (fl *faultLayer) clear() {
+	fl.mu.Lock()
+	fl.active, fl.sizeFld, fl.pad = false, nil, 0
+	fl.mu.Unlock()
+}
 
 func (fl *faultLayer) ServeHTTP(w http.ResponseWriter, r *http.Request) {
 	fl.mu.Lock()
 	active, cut, status, noLen := fl.active, fl.cutAt, fl.status, fl.noLen
+	sizeFld, pad := fl.sizeFld, fl.pad
 	if r.Method == http.MethodGet {
 		fl.getSeen++
 	}
@@ -72,6 +87,16 @@ func (fl *faultLayer) ServeHTTP(w http.ResponseWriter, r *http.Request) {
 	body := rec.Body.Bytes()
 	if rec.Code != 200 {
 		w.WriteHeader(rec.Code)
+		_, _ = w.Write(body)
+		return
+	}
+	if sizeFld != nil && len(body) >= 16 {
+		// wrong size metadata INSIDE the object: the header's logical-size field
+		body = append([]byte(nil), body...)
+		binary.LittleEndian.PutUint64(body[8:16], uint64(*sizeFld))
+		body = append(body, make([]byte, pad)...)
+		w.Header().Set("Content-Length", fmt.Sprint(len(body)))
+		w.WriteHeader(200)
 		_, _ = w.Write(body)
 		return
 	}
@@ -244,6 +269,7 @@ func TestC12Chain(t *testing.T) {
 		}
 		peer := newFx(fxOpts{mode: mode, validateAC: false, proxy: mkProxy()})
 		for _, known := range []bool{true, false} {
+			rep.Eval() // one evaluation per peer read
 			size := int64(-1)
 			if known {
 				size = int64(len(o.data))
@@ -339,13 +365,24 @@ func TestC12Chain(t *testing.T) {
 				continue
 			}
 			type ft struct {
-				name       string
-				cut, code  int
-				noLen      bool
+				name      string
+				cut, code int
+				noLen     bool
+				hdrSize   *int64
+				pad       int
 			}
-			faults := []ft{{"status-404", -1, 404, false}, {"status-500", -1, 500, false}, {"no-content-length", -1, 0, true}}
+			i64 := func(v int64) *int64 { return &v }
+			faults := []ft{{name: "status-404", cut: -1, code: 404}, {name: "status-500", cut: -1, code: 500}, {name: "no-content-length", cut: -1, noLen: true}}
 			for k := 0; k < n; k++ {
-				faults = append(faults, ft{fmt.Sprintf("cut-at-%d", k), k, 0, false})
+				faults = append(faults, ft{name: fmt.Sprintf("cut-at-%d", k), cut: k})
+			}
+			if mode == "zstd" && o.kind == cache.CAS {
+				// the stored object's own header lies about the logical size (short and long bodies)
+				for _, hs := range []int64{0, -1, int64(len(o.data)) + 1, int64(len(o.data)) - 1} {
+					for _, pad := range []int{0, 4 << 20} {
+						faults = append(faults, ft{name: fmt.Sprintf("header-size-field=%d-body+%d", hs, pad), cut: -1, hdrSize: i64(hs), pad: pad})
+					}
+				}
 			}
 			front := newFx(fxOpts{mode: mode, validateAC: false, proxy: mkProxy()})
 			var g1, f1 int
@@ -359,12 +396,20 @@ func TestC12Chain(t *testing.T) {
 						}
 						id := fmt.Sprintf("via=http mode=%s %s size_known=%v fault=%s", mode, o.name, known, f.name)
 						cls := fmt.Sprintf("C12 chain http mode=%s kind=%s fault=%s", mode, o.kind, strings.Split(f.name, "-at-")[0])
-						fl.set(f.cut, f.code, f.noLen)
+						if f.hdrSize != nil {
+							fl.setHeader(*f.hdrSize, f.pad)
+						} else {
+							fl.set(f.cut, f.code, f.noLen)
+						}
 						rc, sz, err := front.cache.Get(context.Background(), o.kind, o.hash, size, 0)
 						fl.clear()
+						// a lie INSIDE the stored object (its header's size field) is corrupted content, and
+						// the backend is trusted for content it delivers completely: for these cells only the
+						// leak oracles below apply, not the content oracles
+						contentTrusted := f.hdrSize == nil
 						if rc != nil {
 							got := readAllClose(rc)
-							if err == nil && (!bytes.Equal(got, o.data) || sz != int64(len(o.data))) {
+							if contentTrusted && err == nil && (!bytes.Equal(got, o.data) || sz != int64(len(o.data))) {
 								rep.Violate(cls+" hit with wrong, short or mis-sized content", fmt.Sprintf("%s: %d bytes (blob has %d), size %d", id, len(got), len(o.data), sz), nil)
 							}
 						}
@@ -378,7 +423,7 @@ func TestC12Chain(t *testing.T) {
 								if rc2 != nil {
 									got2 = readAllClose(rc2)
 								}
-								if err2 != nil || !bytes.Equal(got2, o.data) || sz2 != int64(len(o.data)) {
+								if contentTrusted && (err2 != nil || !bytes.Equal(got2, o.data) || sz2 != int64(len(o.data))) {
 									rep.Violate(cls+" poisoned local entry", fmt.Sprintf("%s: locally cached entry reads err=%v %d bytes size %d", id, err2, len(got2), sz2), nil)
 								}
 								disk.VfForget(front.cache, e.Key)
